@@ -12,6 +12,7 @@ fresh servicers, up to a bijection on the trial ids created during the run.
 """
 import itertools
 import json
+import os
 
 from harness import core
 
@@ -497,11 +498,80 @@ def check_thorough(case):
   return check(case, cap=400)
 
 
+def check_matrix_thorough(case):
+  out = check(case, cap=400)
+  out.cls('matrix_pair')
+  return out
+
+
+# ------------------------------------------------------- systematic pair matrix
+MATRIX_PREFIX = [
+    ['create_study', 'o0', 's0'],
+    ['suggest', 'o0', 's0', 'w1', 2],          # trials 1,2 ACTIVE for w1
+    ['add_meas', 'o0', 's0', 1, 1.0],
+    ['add_meas', 'o0', 's0', 2, 1.0],
+    ['create_trial', 'o0', 's0', {'state': 'REQUESTED', 'final': None,
+                                  'client_id': '', 'k': 1, 'md': []}],  # 3
+    ['create_trial', 'o0', 's0', {'state': 'SUCCEEDED', 'final': 1.0,
+                                  'client_id': '', 'k': 2, 'md': []}],  # 4
+    ['update_md', 'o0', 's0', [['study', ':a', 'k', 'v'], [1, ':a', 'k', 'v']]],
+]
+
+
+def _matrix_variants(focus):
+  comp = {'final': 2.5, 'infeasible': False, 'reason': ''}
+  comp_auto = {'final': None, 'infeasible': False, 'reason': ''}
+  return [
+      ['suggest', 'o0', 's0', 'w2', 1],
+      ['suggest', 'o0', 's0', 'w2', 2],
+      ['suggest', 'o0', 's0', 'w1', 3],
+      ['create_trial', 'o0', 's0', {'state': 'REQUESTED', 'final': None,
+                                    'client_id': '', 'k': 3, 'md': []}],
+      ['complete', 'o0', 's0', focus, comp],
+      ['complete', 'o0', 's0', focus, comp_auto],
+      ['add_meas', 'o0', 's0', focus, 2.5],
+      ['stop', 'o0', 's0', focus],
+      ['delete_trial', 'o0', 's0', focus],
+      ['early_stop', 'o0', 's0', focus],
+      ['update_md', 'o0', 's0', [[focus, ':a', 'j', 'w'],
+                                 ['study', ':a', 'j', 'w']]],
+      ['set_state', 'o0', 's0', 'INACTIVE'],
+      ['set_state', 'o0', 's0', 'ACTIVE'],
+      ['create_study', 'o0', 's1'],
+      ['delete_study', 'o0', 's1'],
+  ]
+
+
+def enum_matrix(tier):
+  cases = []
+  for focus in (1, 3, 4):
+    vs = _matrix_variants(focus)
+    for i in range(len(vs)):
+      for j in range(i, len(vs)):
+        for backend in (('ram', 'sqlmem') if tier == 'thorough' else (
+            ['ram', 'sqlmem'][(i + j + focus) % 2],)):
+          cases.append({'backend': backend, 'read_trials': True,
+                        'prefix': MATRIX_PREFIX, 'calls': [vs[i], vs[j]],
+                        'random_schedules': []})
+  return cases
+
+
+def check_matrix(case):
+  out = check(case, cap=int(os.environ.get('VERIF_C04_MATRIX_CAP', '120')))
+  out.cls('matrix_pair')
+  return out
+
+
 def families(tier):
   chk = check if tier == 'quick' else check_thorough
   return [
+      core.Family('pair_matrix', check_matrix if tier == 'quick' else
+                  check_matrix_thorough, enumerate=enum_matrix,
+                  shards={'quick': 16, 'thorough': 16},
+                  required_classes=('matrix_pair',
+                                    'preempted_read_modify_write')),
       core.Family('interleavings', chk, strategy=strategy,
-                  budget={'quick': 100, 'thorough': 2400},
+                  budget={'quick': 64, 'thorough': 2400},
                   shards={'quick': 16, 'thorough': 16},
                   required_classes=('preempted_read_modify_write', 'ram',
                                     'sqlmem', 'calls_2', 'calls_3') + tuple(
